@@ -130,6 +130,13 @@ class EOFRotator(EOF):
         max_iter = self._params.get("max_iter")
         rtol = self._params.get("rtol")
 
+        n_modes_model = model.data["components"].sizes["mode"]
+        if n_modes > n_modes_model:
+            raise ValueError(
+                f"n_modes={n_modes} exceeds the number of modes of the model "
+                f"({n_modes_model})"
+            )
+
         # Select modes to rotate
         components = model.data["components"].sel(mode=slice(1, n_modes))
         expvar = model.explained_variance().sel(mode=slice(1, n_modes))
